@@ -50,13 +50,19 @@ def check(m, run):
     run.floor('PU1.input-not-mutated', 20, 'non-mutating operations')
     for key, (axis, pdim) in SPLITS.items():
         split_rules(m, run, m.func(key), axis, pdim)
-    decompose_rules(m, run)
+    from .. import skel_drivers as _sd
+    n0 = len(run.obs)
+    _sd.dc2(m, run)
+    dc_ok = all(o.ok for o in run.obs[n0:])
+    with run.corroborating(dc_ok, 'DC2', rules=('DC1.interior-knots', 'DC1.split-functions-in-axis-order', 'DC1.direction-dispatch', 'DC1.repeated-split')):
+        decompose_rules(m, run)
     rv1(m, run)
     # splitting inserts the split parameter up to full multiplicity, usually at an existing knot (s >= 1): the A5.1 cell skeleton
     from .. import skel_drivers
     skel_drivers.c04(m, run)
     from .. import ops_common as oc
     oc.helper_alias_rules(m, run, 'helpers.knot_insertion')
+    skel_drivers.ops2(m, run, 'insert_knot', 'knot_insertion', 1)     # every split is an insertion up to full multiplicity followed by a cut
     skel_drivers.c03_order(m, run)
     from .. import rules_state as rs
     rs.iv4_deepcopy(m, run)
